@@ -21,6 +21,9 @@ pub enum Shape {
     KvUniqKey,
     /// `i32` keys from the same key domain as `Kv`
     Key,
+    /// `(i32 key, Result<i32, i32>)`: quorum responses, at most `.0` responses per key,
+    /// payloads all distinct
+    Resp(u8),
 }
 
 /// Per-run knobs drawn first (swarm testing).
@@ -82,6 +85,21 @@ pub fn gen_input(sim: &mut Sim, shape: Shape, k: &Knobs) -> Vec<Val> {
         Shape::Key => {
             for _ in 0..n {
                 out.push(vi(sim.choose("key", 0, k.keys as u64 - 1) as i64));
+            }
+        }
+        Shape::Resp(max) => {
+            let keys = k.keys.min(3);
+            let mut used = vec![0u8; keys as usize];
+            let err_pct = *sim.pick("k_err_pct", &[20u64, 0, 50]);
+            for i in 0..n {
+                let live: Vec<i64> = (0..keys).filter(|c| used[*c as usize] < max).collect();
+                if live.is_empty() {
+                    break;
+                }
+                let key = live[sim.choose("key", 0, live.len() as u64 - 1) as usize];
+                used[key as usize] += 1;
+                let is_err = sim.flip("resp_err", err_pct, 100);
+                out.push(Val::T(vec![vi(key), Val::T(vec![vi(is_err as i64), vi(100 + i as i64)])]));
             }
         }
     }
